@@ -351,6 +351,8 @@ pub fn run(case: &Case) -> Trace {
 }
 
 fn run_inner(case: &Case) -> Trace {
+    // the virtual clock judges the real delay values: hook H1 must be neutral here
+    emit_batcher::verif::set_delay_divisor(1);
     let cap = (case.cap as usize).max(1);
     let (sender, receiver) = emit_batcher::bounded::<Ch>(cap);
     let w: W = Arc::new(Mutex::new(World {
